@@ -150,6 +150,14 @@ pub fn gen_case(r: &mut Rng) -> Case {
         let mut t = [pt(r), pt(r), pt(r)];
         if r.chance(0.1) { t[2] = [(t[0][0] + t[1][0]) / 2.0, (t[0][1] + t[1][1]) / 2.0]; }   // degenerate
         if r.chance(0.05) { t[1] = t[0]; }
+        // far from the origin: the vertices differ by a few units at offsets of 2^20..2^45 (every coordinate and
+        // every coordinate difference still exact); low-degree integrands so that values stay moderate
+        if r.chance(0.2) {
+            let (ox, oy) = (2f64.powi(r.range(20, 45) as i32) * if r.chance(0.5) { -1.0 } else { 1.0 }, 2f64.powi(r.range(20, 45) as i32) * if r.chance(0.5) { -1.0 } else { 1.0 });
+            for v in t.iter_mut() { v[0] += ox; v[1] += oy; }
+            let f = if r.chance(0.6) { F2::Poly(vec![(0, 0, r.dyadic(-2.0, 2.0, 3))]) } else { F2::Poly(vec![(0, 0, r.dyadic(-2.0, 2.0, 3)), (1, 0, r.dyadic(-2.0, 2.0, 3) * 2f64.powi(-40)), (0, 1, r.dyadic(-2.0, 2.0, 3) * 2f64.powi(-40))]) };
+            return Case::Tri { f, t, tol: if tol.is_finite() && tol > 0.0 { tol } else { 1e-6 }, mi };
+        }
         Case::Tri { f, t, tol, mi }
     } else {
         let (a, b) = match r.below(10) { 0 => { let a = r.dyadic(-2.0, 2.0, 2); (a, a) } _ => (r.dyadic(-2.0, 2.0, 2), r.dyadic(-2.0, 2.0, 2)) };
@@ -206,6 +214,16 @@ fn judge(c: &Case, out: &Outcome, logs: &Logs, rep: &mut Report, gl: &[(f64, f64
             let area2 = ((t[1][0] - t[0][0]) * (t[2][1] - t[0][1]) - (t[1][1] - t[0][1]) * (t[2][0] - t[0][0])).abs();
             if let Outcome::Ok(v, _) = out {
                 if tol.is_finite() && (v - refv).abs() > tol.max(0.0) + floor { rep.finding("oracle", &["C09"], "inaccurate", input.clone(), format!("v={v:e} ref={refv:e} tol={tol:e}")); }
+                // constant integrand: the integral is coef * area, and the area of a triangle with dyadic vertices is exact in i128
+                if let F2::Poly(terms) = &fe {
+                    if terms.len() == 1 && terms[0].0 == 0 && terms[0].1 == 0 && t.iter().flatten().all(|x| (x * 4.0).fract() == 0.0 && x.abs() < 1e15) {
+                        let q = |x: f64| (x * 4.0) as i128;
+                        let cr = (q(t[1][0]) - q(t[0][0])) * (q(t[2][1]) - q(t[0][1])) - (q(t[1][1]) - q(t[0][1])) * (q(t[2][0]) - q(t[0][0]));
+                        let exact = terms[0].2 * (cr.abs() as f64) / 32.0;
+                        rep.count("oracle:exact-area");
+                        if tol.is_finite() && (v - exact).abs() > tol.max(0.0) + 1e-12 * exact.abs() { rep.finding("oracle", &["C09", "C08"], "constant-over-triangle-not-area", input.clone(), format!("v={v:e} exact={exact:e} tol={tol:e}")); }
+                    }
+                }
                 if area2 == 0.0 && *v != 0.0 { rep.finding("oracle", &["C09"], "degenerate-triangle-nonzero", input.clone(), format!("{v:e}")); }
                 // vertex permutation
                 let tp = [t[1], t[2], t[0]]; let tq = [t[0], t[2], t[1]];
@@ -218,7 +236,9 @@ fn judge(c: &Case, out: &Outcome, logs: &Logs, rep: &mut Report, gl: &[(f64, f64
                 let g = [(t[0][0] + t[1][0] + t[2][0]) / 3.0, (t[0][1] + t[1][1] + t[2][1]) / 3.0];
                 let mut sum = 0.0; let mut ok = true;
                 for k in 0..3 { match run_impl(&Case::Tri { f: fe.clone(), t: [t[k], t[(k + 1) % 3], g], tol, mi }).0 { Outcome::Ok(vv, _) => sum += vv, _ => ok = false } }
-                if ok && (v - sum).abs() > 4.0 * tol.max(0.0) + 4.0 * floor { rep.finding("oracle", &["C09"], "not-additive-under-subdivision", input.clone(), format!("{v:e} vs {sum:e}")); }
+                // far from the origin the centroid is rounded to the coordinate grid and the three pieces no longer tile
+                let far = t.iter().flatten().any(|x| x.abs() > 1048576.0);
+                if ok && !far && (v - sum).abs() > 4.0 * tol.max(0.0) + 4.0 * floor { rep.finding("oracle", &["C09"], "not-additive-under-subdivision", input.clone(), format!("{v:e} vs {sum:e}")); }
             }
         }
     }
@@ -271,7 +291,7 @@ pub fn run(o: &Opts) -> Report {
         let imp_res = itoks[..ires_end].join(" ");
         let mut same = imp_res == model_res;
         if itoks.get(ires_end) == Some(&"inner") { same = same && itoks.get(ires_end + 1).map(|s| s.to_string()).unwrap_or_default() == model_inner; }
-        if !same { rep.finding("model", &["C09", "C10"], "quad2d-differs", txt.clone(), format!("impl: {} | model: {}", imp, ans)); }
+        if !same { rep.finding("model", &["C09", "C10", "C08"], "quad2d-differs", txt.clone(), format!("impl: {} | model: {}", imp, ans)); }
     }
     rep
 }
